@@ -103,8 +103,15 @@ def mapping_contract(rc: RuleCtx):
     if len(outl) != 1:
         raise AnalysisError("rdp.mapping: cannot identify the output list")
     L = outl[0]
-    if not (isinstance(loop.iter, ast.Name) and loop.iter.id == "indexes" and isinstance(loop.target, ast.Name)):
-        res.violation("P1", mod, fi.name, loop, "the queries are not visited one by one in input order", ast.unparse(loop.iter), "for i in indexes", construct="query loop")
+    # by value: the loop visits the *argument* itself (not a sorted / de-duplicated / filtered copy of it)
+    try:
+        itv = fr.expr(loop.iter, env)
+    except Unsupported:
+        itv = None
+    if not (isinstance(itv, Rat) and itv.equals(indexes) and isinstance(loop.target, ast.Name)):
+        res.violation("P1", mod, fi.name, loop, "the queries are not visited one by one in input order: the loop does not run over the given positions themselves "
+                      "(a re-ordered or de-duplicated copy answers a different list - one value per queried position is required)",
+                      _short(itv, 120) if itv is not None else ast.unparse(loop.iter), "for i in indexes", construct="query loop")
         return
     ivar = loop.target.id
     inner = [st for st in loop.body if isinstance(st, ast.While)]
